@@ -63,7 +63,7 @@ CHECKS = {
     "C10": dict(level="exploration", parts=[
         dict(prop="REG", harness="api_pbt", quick=dict(count=0, workers=1), thorough=dict(count=0, workers=1)),  # regression scenarios
         dict(prop="C10", harness="api_pbt", quick=dict(count=2000, workers=8), thorough=dict(count=60000, workers=16),
-             essential=_ALL_SCHEMAS + ["reopen>=2", "create_or_load:create", "create_or_load:load", "create_or_load:other-generation-arg", "track-with-performance-data"])]),
+             essential=_ALL_SCHEMAS + ["reopen>=2", "create_or_load:create", "create_or_load:load", "create_or_load:other-generation-arg", "track-with-performance-data", "value>=100KB"])]),
     "C11": dict(level="exploration", parts=[
         dict(prop="REG", harness="api_pbt", quick=dict(count=0, workers=1), thorough=dict(count=0, workers=1)),  # regression scenarios
         dict(prop="C11", harness="api_pbt", quick=dict(count=1600, workers=8), thorough=dict(count=50000, workers=16),
@@ -242,7 +242,7 @@ RULES = {
            "playlist_entity_table add_back / remove (first, middle, last) / clear against the same ordered model (track_ids = insertion "
            "order minus removed). Non-trivial = an insert/move/remove at a non-last position.",
     "C10": "Case = schema + on-disk library in a scratch directory under /dev/shm + history of crate, membership and track operations (full "
-           "snapshots, setters, updates) + up to three close points. At each close point Obs (canonical dump through the public API: every "
+           "snapshots, setters, updates; one case in twelve also holds a track whose comment is 0.1 / 1.2 / 5 MB long) + up to three close points. At each close point Obs (canonical dump through the public API: every "
            "track's snapshot and getters, every crate's name/parent/children/descendants/tracks, roots, by-name lookups, uuid, version) is "
            "taken, all handles are released, the library is loaded again (load_database, or create_or_load_database at the end) and Obs must be "
            "identical; the reported schema must be the creation schema; create_or_load reports created exactly when the directory held no "
